@@ -63,7 +63,7 @@ def main(ctx):
     except TranslateError as e:
         ctx.obligation("translator constants.py (SMALL, TAYLOR_CUT, table size, series order, accuracy)", False, str(e))
         tr_ok, info = False, {}
-    proofs_ok = ctx.lean_props("C14All", extra_modules=["Ecpint.Props.C14", "Ecpint.Props.C14b", "Ecpint.Props.C14c", "Ecpint.Props.C14d", "Ecpint.Props.C14e"]) if tr_ok else False
+    proofs_ok = ctx.lean_props("C14All", extra_modules=["Ecpint.Props.C14", "Ecpint.Props.C14b", "Ecpint.Props.C14c", "Ecpint.Props.C14d", "Ecpint.Props.C14e", "Ecpint.Props.C14f"]) if tr_ok else False
     b = build.build("plain")
     drv = build.compile_driver(b, "corr_bessel.cpp")
     maxl = 3 * int(info.get("LIBECPINT_MAX_L", 5))  # the largest order an engine initialises (2*(maxLB+deriv)+maxLU)
